@@ -145,6 +145,43 @@ func (c *Ctx) exprReturns(fn *ssa.Function) []exprRet {
 	return out
 }
 
+// exprReturnsSplit is exprReturns with a return that several branches jump to (a block holding
+// nothing but phis and the return) reported once per incoming edge, with the conditions of
+// that edge and the phi operands of that edge as results: `return nil` written once at the end
+// of a function and `return nil` written in each branch read the same.
+func (c *Ctx) exprReturnsSplit(fn *ssa.Function) []exprRet {
+	var out []exprRet
+	for _, ret := range ir.NormalReturns(fn) {
+		b := ret.Block()
+		onlyPhis := true
+		for _, in := range b.Instrs[:len(b.Instrs)-1] {
+			if _, isPhi := in.(*ssa.Phi); !isPhi {
+				onlyPhis = false
+			}
+		}
+		if len(b.Preds) < 2 || !onlyPhis {
+			er := exprRet{ret: ret, guards: normExpr(fn, c.exprGuardsOf(fn, ret))}
+			for i := range ret.Results {
+				er.results = append(er.results, normExpr(fn, []string{c.exprDesc(ir.ReturnResult(ret, i))})[0])
+			}
+			out = append(out, er)
+			continue
+		}
+		for pi, p := range b.Preds {
+			er := exprRet{ret: ret, guards: normExpr(fn, c.edgeGuardsExpr(fn, p, b))}
+			for i := range ret.Results {
+				v := ir.ReturnResult(ret, i)
+				if phi, isPhi := v.(*ssa.Phi); isPhi && phi.Block() == b {
+					v = phi.Edges[pi]
+				}
+				er.results = append(er.results, normExpr(fn, []string{c.exprDesc(v)})[0])
+			}
+			out = append(out, er)
+		}
+	}
+	return out
+}
+
 func runC07(c *Ctx) {
 	r := c.R
 	r.Rule("C07.1", "bounds: every index/slice expression of pkg/parser is proven in range", 1)
@@ -288,7 +325,7 @@ func runC07(c *Ctx) {
 		sort.Strings(wantA)
 		sort.Strings(wantB)
 		var gotA, gotB bool
-		for _, er := range c.exprReturns(fn) {
+		for _, er := range c.exprReturnsSplit(fn) {
 			if er.results[0] != "nil" {
 				continue
 			}
